@@ -5,7 +5,9 @@ Proof obligations: Props/C11.lean (generated arithmetic: partition theorems, cou
 Props/C17Index.lean (index queue, all interleavings), Props/C11Proto.lean (worker / join-counter
 protocol), Props/C11c.lean (follow-up C11c: the COMPOSED model - plan from the generated arithmetic,
 index-queue load/CAS steps, index loop with the value pack, exception slot, completion; end-to-end
-theorems under Safe) - all over models whose arithmetic is REGENERATED from the C++ source by
+theorems under Safe), Props/C11Progress.lean (follow-up C11p: no stuck state, termination measure and
+explicit length bound, exactly one completion at the end of every maximal run, n = 0 immediate; also for the
+protocol model) - all over models whose arithmetic is REGENERATED from the C++ source by
 tools/translate/bulk_arith.py on every run.
 Ties: (a) T-gen; (b) E1 controlled schedules of the real contiguous_index_queue replayed through
 the Lean acceptor `iq`; (c) E0 differential execution of the real get_chunk_size / init_queue /
@@ -20,7 +22,7 @@ sys.path.insert(0, os.path.join(os.path.dirname(os.path.abspath(__file__)), '..'
 from vlib import *
 
 PROP = 'C11'
-PROPS = ['C11', 'C17Index', 'C11Proto', 'C11c']
+PROPS = ['C11', 'C17Index', 'C11Proto', 'C11c', 'C11Progress']
 JOBS = 6
 U32, U64 = 1 << 32, 1 << 64
 SH = {0: (32, True), 1: (32, False), 2: (64, True), 3: (64, False)}
